@@ -50,6 +50,25 @@ class DocView(object):
           return True
     return False
 
+  def sections(self):
+    """[(sectionRef, tableRef, viewRef, is_summary_table)] of all view sections"""
+    out = []
+    for sec in self.eng.docmodel.view_sections.all:
+      out.append((sec.id, sec.tableRef.id, sec.parentId.id, bool(sec.tableRef.summarySourceTable)))
+    return out
+
+  def views(self):
+    return [v.id for v in self.eng.docmodel.views.all]
+
+  def fields(self, tid):
+    """[(fieldRef, colRef)] of the fields showing columns of table tid"""
+    out = []
+    for sec in self.eng.docmodel.view_sections.all:
+      if sec.tableRef.tableId == tid:
+        for f in sec.fields:
+          out.append((f.id, f.colRef.id))
+    return out
+
   def formula_cols(self, tid):
     return sorted(c for c, v in self.tables[tid]["cols"].items()
                   if v[2] and not c.startswith('gristHelper_') and c != 'group')
@@ -274,6 +293,146 @@ class Gen(object):
     ref = view.tables[tid]["cols"][c][0]
     return ['UpdateRecord', '_grist_Tables_column', ref, {'label': self.fresh("Label ")}]
 
+  # ---- views / sections / summaries ----
+  def ua_add_view(self, view, tid):
+    return ['AddView', tid, self.rng.choice(['raw_data', 'empty']), self.fresh("Page ")]
+
+  def ua_create_section(self, view, tid):
+    r = self.rng
+    tref = view.tables[tid]["ref"]
+    views = view.views()
+    vref = r.choice(views + [0]) if views else 0
+    return ['CreateViewSection', tref, vref, r.choice(['record', 'detail', 'chart']), None, None]
+
+  def ua_create_summary(self, view, tid):
+    r = self.rng
+    if view.tables[tid]["summary"]:
+      return None
+    tref = view.tables[tid]["ref"]
+    dcols = view.data_cols(tid)
+    k = r.randint(0, min(2, len(dcols)))
+    gb = sorted(view.tables[tid]["cols"][c][0] for c in r.sample(dcols, k))
+    views = view.views()
+    vref = r.choice(views + [0]) if views else 0
+    return ['CreateViewSection', tref, vref, 'record', gb, None]
+
+  def ua_update_summary(self, view, tid):
+    r = self.rng
+    secs = [s for s in view.sections() if s[3]]
+    if not secs:
+      return None
+    sec = r.choice(secs)
+    trec = view.eng.docmodel.tables.table.get_record(sec[1])
+    src = trec.summarySourceTable
+    dcols = [c for c in src.columns if not c.isFormula and c.colId != 'manualSort'
+             and not c.colId.startswith('gristHelper_')]
+    k = r.randint(0, min(2, len(dcols)))
+    gb = sorted(c.id for c in r.sample(dcols, k))
+    return ['UpdateSummaryViewSection', sec[0], gb]
+
+  def ua_detach_summary(self, view, tid):
+    secs = [s for s in view.sections() if s[3] and s[2]]
+    if not secs:
+      return None
+    return ['DetachSummaryViewSection', self.rng.choice(secs)[0]]
+
+  def ua_remove_section(self, view, tid):
+    secs = [s for s in view.sections() if s[2]]      # sections that belong to a view (not raw/card)
+    if not secs:
+      return None
+    return ['RemoveViewSection', self.rng.choice(secs)[0]]
+
+  def ua_remove_view(self, view, tid):
+    views = view.views()
+    if len(views) < 2:
+      return None
+    return ['RemoveView', self.rng.choice(views)]
+
+  def ua_add_summary_formula(self, view, tid):
+    r = self.rng
+    sums = [t for t in view.user_tables(summary=True) if view.tables[t]["summary"]]
+    if not sums:
+      return None
+    t = r.choice(sums)
+    src = view.tables[t]["rec"].summarySourceTable.tableId
+    scols = [c for c in view.data_cols(src)] if src in view.tables else []
+    f = "len($group)" if not scols or r.random() < 0.4 else "sorted($group.%s, key=repr)" % r.choice(scols)
+    return ['AddColumn', t, self.fresh("s"), {'type': 'Any', 'isFormula': True, 'formula': f}]
+
+  # ---- display columns, rules, two-way references, choices ----
+  def ua_display_formula(self, view, tid):
+    r = self.rng
+    refcols = [c for c in view.data_cols(tid) if view.tables[tid]["cols"][c][1].startswith('Ref')]
+    if not refcols:
+      return None
+    c = r.choice(refcols)
+    cref, typ = view.tables[tid]["cols"][c][0], view.tables[tid]["cols"][c][1]
+    tgt = typ.split(':')[1]
+    if tgt not in view.tables:
+      return None
+    tcols = view.data_cols(tgt)
+    if not tcols:
+      return None
+    formula = "$%s.%s" % (c, r.choice(tcols)) if r.random() < 0.8 else ""
+    fields = [f for f in view.fields(tid) if f[1] == cref]
+    if fields and r.random() < 0.4:
+      return ['SetDisplayFormula', tid, r.choice(fields)[0], None, formula]
+    return ['SetDisplayFormula', tid, None, cref, formula]
+
+  def ua_add_rule(self, view, tid):
+    r = self.rng
+    cols = view.all_cols(tid)
+    if not cols:
+      return None
+    cref = view.tables[tid]["cols"][r.choice(cols)][0]
+    fields = view.fields(tid)
+    if fields and r.random() < 0.4:
+      return ['AddEmptyRule', tid, r.choice(fields)[0], 0]
+    return ['AddEmptyRule', tid, 0, cref]
+
+  def ua_add_reverse(self, view, tid):
+    r = self.rng
+    refcols = [c for c in view.data_cols(tid) if view.tables[tid]["cols"][c][1].startswith('Ref')
+               and not view.tables[tid]["cols"][c][4].reverseCol]
+    if not refcols:
+      return None
+    return ['AddReverseColumn', tid, r.choice(refcols)]
+
+  def ua_add_ref_column(self, view, tid):
+    r = self.rng
+    others = view.user_tables()
+    typ = r.choice(['Ref:', 'RefList:']) + r.choice(others)
+    return ['AddColumn', tid, self.fresh("ref"), {'type': typ, 'isFormula': False, 'formula': ''}]
+
+  def ua_switch_ref_type(self, view, tid):
+    r = self.rng
+    refcols = [c for c in view.data_cols(tid) if view.tables[tid]["cols"][c][1].startswith('Ref')]
+    if not refcols:
+      return None
+    c = r.choice(refcols)
+    typ = view.tables[tid]["cols"][c][1]
+    base, tgt = typ.split(':')
+    return ['ModifyColumn', tid, c, {'type': ('RefList:' if base == 'Ref' else 'Ref:') + tgt}]
+
+  def ua_update_refs(self, view, tid):
+    r = self.rng
+    rows = view.tables[tid]["rows"]
+    refcols = [c for c in view.data_cols(tid) if view.tables[tid]["cols"][c][1].startswith('Ref')]
+    if not rows or not refcols:
+      return None
+    ids = r.sample(rows, r.randint(1, min(3, len(rows))))
+    c = r.choice(refcols)
+    vals = {c: [self.value(view.tables[tid]["cols"][c][1], view) for _ in ids]}
+    return ['BulkUpdateRecord', tid, ids, vals]
+
+  def ua_rename_choices(self, view, tid):
+    r = self.rng
+    ccols = [c for c in view.data_cols(tid) if view.tables[tid]["cols"][c][1] in ('Choice', 'ChoiceList')]
+    if not ccols:
+      return None
+    m = r.choice([{"a": "b", "b": "a"}, {"a": "z"}, {"a": "b", "b": "c"}, {"c": "a"}, {"x": "y"}])
+    return ['RenameChoices', tid, r.choice(ccols), m]
+
   def ua_invalid(self, view):
     r = self.rng
     tabs = view.user_tables()
@@ -309,6 +468,7 @@ class Gen(object):
 
   def bundle(self, view, max_len=3, invalid_prob=0.0):
     r = self.rng
+    max_len = PROFILE_OPTS.get(self.profile, {}).get("max_len", max_len)
     n = 1 if r.random() < 0.6 else r.randint(2, max_len)
     out = []
     for _ in range(n):
@@ -329,6 +489,20 @@ PROFILE_OPTS = {
 }
 
 PROFILES = {
+  "views": {"add_records": 12, "update_records": 10, "remove_records": 5, "add_column": 8,
+            "remove_column": 5, "rename_column": 4, "modify_column": 5, "rename_table": 2,
+            "remove_table": 3, "add_table": 4, "add_view": 6, "create_section": 10, "remove_section": 8,
+            "remove_view": 5, "display_formula": 8, "add_rule": 6, "add_ref_column": 5},
+  "summary": {"add_records": 18, "update_records": 18, "remove_records": 10, "add_column": 5,
+              "remove_column": 3, "rename_column": 4, "modify_column": 6, "rename_table": 2,
+              "add_table": 2, "create_summary": 12, "update_summary": 8, "detach_summary": 3,
+              "remove_section": 4, "add_summary_formula": 6, "remove_view": 2},
+  "twoway": {"add_records": 14, "update_records": 6, "update_refs": 25, "remove_records": 12,
+             "add_ref_column": 8, "add_reverse": 12, "switch_ref_type": 8, "remove_column": 4,
+             "rename_column": 3, "add_table": 3, "remove_table": 1},
+  "refs": {"add_records": 18, "update_records": 8, "update_refs": 22, "remove_records": 22,
+           "add_ref_column": 10, "add_column": 5, "modify_column": 4, "remove_table": 2, "add_table": 4,
+           "rename_choices": 4},
   "general": {"add_records": 20, "update_records": 20, "remove_records": 8, "add_column": 10,
               "remove_column": 4, "rename_column": 5, "modify_column": 8, "rename_table": 2,
               "remove_table": 1, "add_table": 3, "meta_label": 2},
